@@ -363,6 +363,15 @@ def runOp (d : Defs) (st : UState) (op : Sexp) : UState :=
       | .ice => { st with dead := some "ice" }
       | .stuck => { st with dead := some "stuck" }
     | _, _ => { st with dead := some "bad-op" }
+  | .list [.atom "unifytop", a, b] =>
+    match parseMTy a, parseMTy b with
+    | some a, some b =>
+      match unifyTop d defaultFuel st.store a b with
+      | .ok _ s => { st with store := s, out := st.out ++ ["ok"] }
+      | .fail s => { st with store := s, out := st.out ++ ["fail"] }
+      | .ice => { st with dead := some "ice" }
+      | .stuck => { st with dead := some "stuck" }
+    | _, _ => { st with dead := some "bad-op" }
   | .list [.atom "mark", a] =>
     match parseMTy a with
     | some a => { st with store := markSigned st.store a, out := st.out ++ ["m"] }
